@@ -29,6 +29,20 @@ func c11Check(c *core.Ctx, oracle string, docs []any) {
 		case ref.Unspec:
 			c.Unspec()
 			c.Outcome("unspecified")
+			// what the statement fixes even here: the root is the output only when NOTHING is marked. A
+			// document with a marked subtree (however that subtree itself fares) never falls back to its root.
+			if len(docs) == 1 && err == nil && c11CountTrue(d) > 0 && !c11RootMarked(d) {
+				if fb := ref.Outputs(ref.DropNulls(c11StripTrue(d))); fb.V == ref.Accept && len(fb.Outs) == 1 {
+					for _, o := range outs {
+						if core.Equal(o, fb.Outs[0]) {
+							c.Outcome("ROOT-FALLBACK-ALTHOUGH-MARKED")
+							c.Fail(oracle, "root-emitted-although-a-subtree-is-marked", wit, map[string]any{"got": outs, "root_fallback": fb.Outs[0]})
+							return
+						}
+					}
+					c.Outcome("unspecified-but-no-root-fallback")
+				}
+			}
 			return
 		case ref.Reject:
 			c.Validated()
@@ -149,4 +163,68 @@ func buildC11(tier string) *core.Plan {
 		Assumptions: []string{"reference model ref.Outputs (select, hide, final) is the oracle; the relative order of a selected subtree and a selected descendant is compared as a multiset; a list carrying both markers is not judged"},
 		Bounds:      map[string]any{"nodes": n, "trees": trees.Len()},
 	}
+}
+
+// c11CountTrue counts $output: true markers (map keys and list marker entries).
+func c11CountTrue(v any) int {
+	n := 0
+	switch x := v.(type) {
+	case map[string]any:
+		if b, ok := x["$output"].(bool); ok && b {
+			n++
+		}
+		for _, c := range x {
+			n += c11CountTrue(c)
+		}
+	case []any:
+		for _, c := range x {
+			n += c11CountTrue(c)
+		}
+	}
+	return n
+}
+
+// c11RootMarked: the document root itself is selected.
+func c11RootMarked(v any) bool {
+	switch x := v.(type) {
+	case map[string]any:
+		b, ok := x["$output"].(bool)
+		return ok && b
+	case []any:
+		for _, e := range x {
+			if m, ok := e.(map[string]any); ok {
+				if b, ok := m["$output"].(bool); ok && b {
+					return true
+				}
+			}
+		}
+	}
+	return false
+}
+
+// c11StripTrue removes every $output: true marker (keys, and list entries that are nothing but the marker).
+func c11StripTrue(v any) any {
+	switch x := v.(type) {
+	case map[string]any:
+		m := map[string]any{}
+		for k, c := range x {
+			if b, ok := c.(bool); k == "$output" && ok && b {
+				continue
+			}
+			m[k] = c11StripTrue(c)
+		}
+		return m
+	case []any:
+		l := []any{}
+		for _, e := range x {
+			if em, ok := e.(map[string]any); ok && len(em) == 1 {
+				if b, ok := em["$output"].(bool); ok && b {
+					continue
+				}
+			}
+			l = append(l, c11StripTrue(e))
+		}
+		return l
+	}
+	return v
 }
